@@ -33,6 +33,9 @@ pub struct Engine<'a, L> {
     list_node: HashMap<usize, usize>,
     // Mark index of bnode as compound literals
     compound_literals: HashSet<usize>,
+    // Maps each blank node id to the (id of the) graph where it is used,
+    // or to None if it is used in several graphs
+    bnode_graph: HashMap<Box<str>, Option<Box<str>>>,
 }
 
 impl<'a, L> Engine<'a, L> {
@@ -47,6 +50,7 @@ impl<'a, L> Engine<'a, L> {
             list_seeds: Vec::new(),
             list_node: HashMap::new(),
             compound_literals: HashSet::new(),
+            bnode_graph: HashMap::new(),
         }
     }
 
@@ -70,6 +74,18 @@ impl<'a, L> Engine<'a, L> {
             }
             let g_id = q.g().map_or_else(|| Box::from(" "), |g| g.as_id());
             let s_id = q.s().as_id();
+            for t in [q.s(), q.o()] {
+                if t.is_bnode() {
+                    self.bnode_graph
+                        .entry(t.as_id())
+                        .and_modify(|opt| {
+                            if opt.as_ref().is_some_and(|g| g != &g_id) {
+                                opt.take();
+                            }
+                        })
+                        .or_insert_with(|| Some(g_id.clone()));
+                }
+            }
             let is = self.index(g_id.clone(), s_id.clone());
             if q.g().is_some() {
                 let ig = self.index(" ".to_string(), g_id.clone());
@@ -144,10 +160,36 @@ impl<'a, L> Engine<'a, L> {
         for inode in list_seeds {
             self.mark_list_node(inode);
         }
+        // a list node that is its own ancestor (e.g. _:a rdf:first _:a) would never be rendered:
+        // such cycles are not compacted
+        let cyclic: Vec<usize> = self
+            .list_node
+            .keys()
+            .copied()
+            .filter(|inode| {
+                let mut current = *inode;
+                for _ in 0..=self.list_node.len() {
+                    match self.list_node.get(&current) {
+                        Some(iparent) if iparent == inode => return true,
+                        Some(iparent) => current = *iparent,
+                        None => return false,
+                    }
+                }
+                true
+            })
+            .collect();
+        for inode in cyclic {
+            self.list_node.remove(&inode);
+        }
         // check that candidate compound literals are indeed compound literels
         if self.options.rdf_direction() == Some(RdfDirection::CompoundLiteral) {
             let mut compound_literals = std::mem::take(&mut self.compound_literals);
-            compound_literals.retain(|is| is_compound_literal(&self.node[*is]));
+            // NB: a compound literal is replaced by a value object where it is referenced,
+            // so it must be referenced exactly once, otherwise it is kept as a regular node
+            compound_literals.retain(|is| {
+                is_compound_literal(&self.node[*is])
+                    && matches!(self.unique_parent.get(is), Some(Some(_)))
+            });
             self.compound_literals = compound_literals;
         }
 
@@ -166,6 +208,10 @@ impl<'a, L> Engine<'a, L> {
     fn mark_list_node(&mut self, inode: usize) {
         let (g_id, s_id) = &self.gs_id[inode];
         debug_assert!(s_id.starts_with("_:"), "{}", s_id);
+        if self.bnode_graph.get(s_id).is_some_and(Option::is_none) {
+            // this blank node is also used in another graph, where it must keep its identity
+            return;
+        }
         if let Some(Some((iparent, pp))) = self.unique_parent.get(&inode) {
             if self.options.processing_mode() == JsonLd1_0 && pp.as_ref() == RDF_FIRST {
                 return;
